@@ -81,6 +81,8 @@ func callOrigins(p *an.Prog, v ssa.Value) []string {
 
 func runC04(c *report.Ctx) {
 	p := c.P
+	// the sentence the decoders accept and store is the sentence the KDF hashes: no case folding / rewriting in between
+	ruleValidatedTokensAreDecodedTokens(c)
 	// ---- (1) seed provenance -----------------------------------------------------------------------------
 	c.Rule("seed-provenance", "hdkeychain.NewMaster is fed only with NewSeed/NewSeedWithErrorChecking(mnemonic, private passphrase); the root key reaches createManagerKeyScope", 5)
 	newMaster := fn(c, pkgHD, "", "NewMaster")
